@@ -1,10 +1,10 @@
 (** C07 — iterates stay strictly interior; the trajectory does not depend on the iteration
     budget.  [C07_prefix_independent] is about the loop model (all kernel answers);
     [C07_interior_*] say what the exact snapshot test of the correspondence run certifies. *)
-From Coq Require Import List NArith QArith Bool.
+From Coq Require Import List NArith QArith Bool Reals.
 Import ListNotations.
 Require Import Clarabel.Base.Dyadic.
-Require Import Clarabel.Solver.Skeleton Clarabel.Solver.Spec Clarabel.Solver.Lemmas Clarabel.Solver.Interior.
+Require Import Clarabel.Solver.Skeleton Clarabel.Solver.Spec Clarabel.Solver.Lemmas Clarabel.Solver.Interior Clarabel.Solver.StepLen.
 
 Theorem C07_prefix_independent :
   forall A azero a_lt_switch a_le_term,
@@ -19,6 +19,17 @@ Theorem C07_interior_soc_sound :
   forall t r, soc_int (t :: r) = true ->
     (0 < d2Q t)%Q /\ (Qsum (map (fun x => d2Q x * d2Q x) r) < d2Q t * d2Q t)%Q.
 Proof. exact soc_int_sound. Qed.
+
+(** the damped step computed by calc_step_length keeps the homogenisation scalars positive
+    (reals; [cap_R] is the cap the code passes to the cones, [az], [as_] their answers) *)
+Theorem C07_step_keeps_tau_kappa_positive :
+  forall tau kappa dtau dkappa big az as_ frac : R,
+    (0 < tau)%R -> (0 < kappa)%R -> (0 < big)%R -> (0 <= frac < 1)%R ->
+    (0 <= az <= cap_R tau kappa dtau dkappa big)%R ->
+    (0 <= as_ <= cap_R tau kappa dtau dkappa big)%R ->
+    let a := (Rmin az as_ * frac)%R in
+    (0 < tau + a * dtau)%R /\ (0 < kappa + a * dkappa)%R.
+Proof. exact step_keeps_tau_kappa_positive. Qed.
 
 (** non-vacuity: budgets 1 and 5 on the same kernel answers — the short run stops at the
     head where the long run shows iteration 1 *)
